@@ -31,33 +31,66 @@ def scan_function(fn, module_names):
         # a[mask] with a boolean-mask / comparison index allocates a copy (numpy); plain slices and integer indices are views
         return isinstance(v, ast.Subscript) and isinstance(v.slice, (ast.Compare, ast.BoolOp, ast.Call))
 
-    assigns = [n for n in ast.walk(fn) if isinstance(n, ast.Assign) and len(n.targets) == 1 and isinstance(n.targets[0], ast.Name)]
-    for n in sorted(assigns, key=lambda x: x.lineno):
-        t = n.targets[0].id
-        v = n.value
-        r = root_name(v) if isinstance(v, (ast.Name, ast.Attribute, ast.Subscript)) and not is_copying_index(v) else None
-        if r is not None and (r in alias_of_param or (r in params and not (r in fresh_line and fresh_line[r] < n.lineno))):
-            alias_of_param[t] = alias_of_param.get(r, r)      # NewCond = InitCond ; prof = Soil.Profile ; view slices
-            alias_of_global.pop(t, None)
-        elif r is not None and r not in params and r not in fresh_locals and (r in alias_of_global or (r in module_names and r not in _LIB_MODULES)):
-            alias_of_global[t] = alias_of_global.get(r, r)    # params = crop_params[c_name]
-            alias_of_param.pop(t, None)
-        else:
-            fresh_locals.add(t)
-            fresh_line.setdefault(t, n.lineno)
-            alias_of_param.pop(t, None)
-            alias_of_global.pop(t, None)
+    # block path of every statement: the enclosing compound statements inside the function (an assignment only "kills" an earlier alias of the
+    # same name if it executes on every path that the alias assignment is on, i.e. its block path is a prefix of the alias's block path)
+    block_path = {}
+    def _walk(body, path):
+        for st_ in body:
+            block_path[id(st_)] = path
+            for fld in ("body", "orelse", "finalbody"):
+                sub = getattr(st_, fld, None)
+                if isinstance(sub, list) and sub and isinstance(sub[0], ast.stmt):
+                    _walk(sub, path + ((id(st_), fld),))
+            for h in getattr(st_, "handlers", []) or []:
+                _walk(h.body, path + ((id(st_), "handler%d" % id(h)),))
+    _walk(fn.body, ())
+    assigns = sorted([n for n in ast.walk(fn) if isinstance(n, ast.Assign) and len(n.targets) == 1 and isinstance(n.targets[0], ast.Name)],
+                     key=lambda x: x.lineno)
+
+    def bindings_before(line):
+        """Replay the simple name bindings that precede `line` (source order; loops are not iterated): which local names may still refer to a
+        parameter / module-level object, which are bound to fresh objects."""
+        alias_of_param, alias_of_global, fresh_locals, fresh_line, alias_path = {}, {}, set(), {}, {}
+        for n in assigns:
+            if n.lineno >= line:
+                break
+            t = n.targets[0].id
+            v = n.value
+            r = root_name(v) if isinstance(v, (ast.Name, ast.Attribute, ast.Subscript)) and not is_copying_index(v) else None
+            if r is not None and (r in alias_of_param or (r in params and not (r in fresh_line and fresh_line[r] < n.lineno))):
+                alias_of_param[t] = alias_of_param.get(r, r)      # NewCond = InitCond ; prof = Soil.Profile ; view slices
+                alias_path[t] = block_path.get(id(n), ())
+                alias_of_global.pop(t, None)
+            elif r is not None and r not in params and r not in fresh_locals and (r in alias_of_global or (r in module_names and r not in _LIB_MODULES)):
+                alias_of_global[t] = alias_of_global.get(r, r)    # params = crop_params[c_name]
+                alias_path[t] = block_path.get(id(n), ())
+                alias_of_param.pop(t, None)
+            else:
+                fresh_locals.add(t)
+                fresh_line.setdefault(t, n.lineno)
+                here = block_path.get(id(n), ())
+                ap = alias_path.get(t)
+                if ap is None or ap[:len(here)] == here:
+                    # this fresh binding executes whenever the alias binding did (same block or an enclosing one): the alias is gone
+                    alias_of_param.pop(t, None)
+                    alias_of_global.pop(t, None)
+                    alias_path.pop(t, None)
+                # otherwise (e.g. re-bound only inside an `if`) the name may still refer to the parameter / module-level object afterwards
+        return alias_of_param, alias_of_global, fresh_locals, fresh_line
+
     def classify(target):
         r = root_name(target)
         if r is None:
             return "unknown"
         if r == "self":
             return "self"
+        line = getattr(target, "lineno", 10 ** 9)
+        alias_of_param, alias_of_global, fresh_locals, fresh_line = bindings_before(line)
         if r in alias_of_param:
             return "param:" + alias_of_param[r]
         if r in alias_of_global:
             return "global:" + alias_of_global[r]
-        if r in params and r in fresh_line and fresh_line[r] < getattr(target, "lineno", 0):
+        if r in params and r in fresh_line and fresh_line[r] < line:
             return "local"          # parameter name re-bound to a fresh object (x = x.copy()) before this store
         if r in params:
             return "param:" + r
